@@ -90,26 +90,28 @@ func writeEvidence(def *checkDef, b *builder, results []*itemResult, nviol int, 
 		_ = n
 	}
 	cov := map[string]interface{}{
-		"evaluations":         evals,
-		"distinct_nontrivial": distinct,
-		"rule":                fmt.Sprintf("%v  [distinct_nontrivial is a measured lower bound: fingerprints (SHA-256 of the merged event log) of non-trivial runs are hashed into a 2^26-bit bitmap per workload/variant and the set bits are counted; non-trivial runs total %d]", rules, nontrivial),
-		"samples":             samples,
-		"nontrivial_runs":     nontrivial,
-		"runs_per_hour":       uint64(perHour),
-		"simulated_time":      fmt.Sprintf("%d logical steps (the library has no clock; simulated time is the scheduler/workload step counter)", steps),
-		"logical_steps":       steps,
-		"counters":            counters,
-		"counters_note":       "fault kinds actually fired, probes for rare branches, scheduler statistics; measured on this run",
-		"build_matrix":        matrix,
-		"components_real":     keys(realSet),
-		"components_stub":     keys(stubSet),
-		"instrumented_files":  b.files,
-		"yield_sites":         b.sites,
-		"determinism_reruns":  detRuns,
-		"determinism_note":    "that many run indices were executed a second time in a separate process with a different GOMAXPROCS and worker layout; all fingerprints were identical (a mismatch is exit 2)",
-		"zero_probes":         zero,
-		"seeds":               fmt.Sprintf("base seed %d; run i of workload W uses splitmix(base, hash(W), i)", baseSeed),
-		"repo":                repoDir,
+		"evaluations":                     evals,
+		"distinct_nontrivial":             distinct,
+		"rule":                            fmt.Sprintf("%v  [distinct_nontrivial is a measured lower bound: fingerprints (SHA-256 of the merged event log) of non-trivial runs are hashed into a 2^26-bit bitmap per workload/variant and the set bits are counted; non-trivial runs total %d]", rules, nontrivial),
+		"samples":                         samples,
+		"nontrivial_runs":                 nontrivial,
+		"runs_per_hour":                   uint64(perHour),
+		"simulated_time":                  fmt.Sprintf("%d logical steps (the library has no clock; simulated time is the scheduler/workload step counter)", steps),
+		"logical_steps":                   steps,
+		"counters":                        counters,
+		"counters_note":                   "fault kinds actually fired, probes for rare branches, scheduler statistics; measured on this run",
+		"build_matrix":                    matrix,
+		"components_real":                 keys(realSet),
+		"components_stub":                 keys(stubSet),
+		"instrumented_files":              b.files,
+		"yield_sites":                     b.sites,
+		"instrumented_files_wide_variant": b.filesW,
+		"yield_sites_wide_variant":        b.sitesW,
+		"determinism_reruns":              detRuns,
+		"determinism_note":                "that many run indices were executed a second time in a separate process with a different GOMAXPROCS and worker layout; all fingerprints were identical (a mismatch is exit 2)",
+		"zero_probes":                     zero,
+		"seeds":                           fmt.Sprintf("base seed %d; run i of workload W uses splitmix(base, hash(W), i)", baseSeed),
+		"repo":                            repoDir,
 	}
 	ev := map[string]interface{}{
 		"property_id": def.property,
